@@ -288,3 +288,49 @@ pub fn c10_q_set_psk_any_location_and_length() {
     core::mem::forget(b);
     core::mem::forget(hs);
 }
+
+/// "A PSK that was not supplied is never replaced by a default": the PSK table of the state produced by the real
+/// `Builder` holds exactly the supplied keys in exactly the supplied slots, everything else empty. Slot choices are
+/// concrete (symbolic slot indices through `Builder::psk` and the copy loop in `build` did not finish in 10 min);
+/// the key bytes are symbolic.
+fn psk_table_case(a: u8, b: Option<u8>) {
+    use snow::verif;
+    unsafe {
+        RES_DH_CALLS = 0;
+        RES_CIPHER_CALLS = 0;
+    }
+    let k1: [u8; 32] = kani::any();
+    let k2: [u8; 32] = kani::any();
+    let mut bld = Builder::with_resolver(params_with(Pat::NN, vec![HandshakeModifier::Psk(0)]), Box::new(StubResolver { rng: true, dh: true, cipher: true, hash: true }));
+    bld = bld.psk(a, &k1).unwrap();
+    if let Some(b) = b {
+        bld = bld.psk(b, &k2).unwrap();
+    }
+    let r = bld.build_initiator();
+    assert!(r.is_ok(), "C12: Builder refused a complete configuration");
+    if let Ok(hs) = r {
+        let snap = verif::snapshot(&hs);
+        let mut i = 0;
+        while i < 10 {
+            let want: Option<[u8; 32]> = if i == a as usize {
+                Some(k1)
+            } else if b == Some(i as u8) {
+                Some(k2)
+            } else {
+                None
+            };
+            assert!(snap.psks[i] == want, "C12: the handshake state's PSK table differs from what was supplied (a missing PSK must stay missing)");
+            i += 1;
+        }
+        core::mem::forget(hs);
+    }
+}
+
+#[kani::proof]
+#[kani::unwind(34)]
+pub fn c12_q_builder_psk_table() {
+    psk_table_case(0, Some(2));
+    psk_table_case(3, None);
+    psk_table_case(9, Some(1));
+    kani::cover!(true, "C12 psk table harness reached");
+}
